@@ -1,5 +1,7 @@
 package sym
 
+import "math/big"
+
 // assumeHolds restricts the path to cond without forking: the complement is
 // simply not explored. Returns false if cond is infeasible on this path.
 func (e *Engine) assumeHolds(st *State, cond *Term) bool {
@@ -34,4 +36,21 @@ func (e *Engine) assumeHolds(st *State, cond *Term) bool {
 	}
 	e.addPC(st, cond)
 	return true
+}
+
+// extendWitnesses: v is a fresh variable not occurring in the path condition;
+// every witness stays a witness when extended with v := val.
+func (e *Engine) extendWitnesses(st *State, v, val *Term) {
+	for i, w := range st.wit {
+		nm := make(Model, len(w.m)+1)
+		for k, x := range w.m {
+			nm[k] = x
+		}
+		nm[v.Name] = val.Val
+		nc := make(map[int]*big.Int, len(w.cache))
+		for k, x := range w.cache {
+			nc[k] = x
+		}
+		st.wit[i] = &Witness{m: nm, cache: nc}
+	}
 }
